@@ -91,6 +91,16 @@ def helpers(ctx, N, d):
     mpos = [ctx.model.ask({'op': 'interp', 'what': 'pos', 'i': [int(v) for v in i]})['r'] for i in J]
     if pos != mpos:
         return 'pos: convert_multi_indices_to_pos differs from the model'
+    # ... and on the same multi-indices in another row order / a selection of rows (every row is a multi-index of degree d):
+    # row m of the result is the position list of row m
+    if len(J) > 1:
+        for lab, rows in (('reversed', list(range(len(J)))[::-1]), ('rotated', list(range(1, len(J))) + [0]), ('last rows only', list(range(len(J) // 2, len(J))))):
+            try:
+                pr = ei.convert_multi_indices_to_pos(np.array(J)[rows]).tolist()
+            except Exception as ex:
+                return 'pos-row-order: convert_multi_indices_to_pos raised %s for the multi-indices of (%d, %d) in the order "%s"' % (type(ex).__name__, N, d, lab)
+            if pr != [mpos[k] for k in rows]:
+                return 'pos-row-order: convert_multi_indices_to_pos differs from the model for the multi-indices of (%d, %d) in the order "%s"' % (N, d, lab)
     return None
 
 
